@@ -33,18 +33,18 @@ def plan(tier):
     g.append({"variant": "asan", "name": "selftest-asan", "workers": 1, "cases": 1, "params": {"mon": "selftest"}})
     g.append({"variant": "guard", "name": "selftest-guard", "workers": 1, "cases": 2, "params": {"mon": "selftest"}})
     for p in _available():
-        n = {"C08": 150, "C15": 25, "C16": 25, "C17": 120, "C18": 40, "C20": 25}.get(p, 30) * (1 if q else 12)
+        n = {"C08": 300, "C15": 25, "C16": 25, "C17": 5000, "C18": 400, "C20": 25}.get(p, 30) * (1 if q else 12)
         g.append({"variant": "asan", "name": "asan-replay-" + p, "workers": 1 if q else 2, "cases": n, "params": {"mon": "replay", "prop": p}})
         g.append({"variant": "guard", "name": "guard-replay-" + p, "workers": 1 if q else 2, "cases": n, "params": {"mon": "replay", "prop": p}})
         if not q:
             g.append({"variant": "guard", "name": "guard-under-replay-" + p, "workers": 1, "cases": n, "params": {"mon": "replay", "prop": p},
                       "env": {"VGUARD_LAYOUT": "under"}})
-    hc = 400 if q else 6000
+    hc = 1500 if q else 20000
     g.append({"variant": "asan", "name": "asan-hostile", "workers": 2, "cases": hc, "params": {"mon": "hostile"}})
     g.append({"variant": "guard", "name": "guard-hostile", "workers": 2, "cases": hc, "params": {"mon": "hostile"}})
     g.append({"variant": "guard", "name": "guard-under-hostile", "workers": 1, "cases": hc, "params": {"mon": "hostile"}, "env": {"VGUARD_LAYOUT": "under"}})
     g.append({"variant": "guard", "name": "guard-strict-hostile", "workers": 1, "cases": hc, "params": {"mon": "hostile", "noblas": True},
-              "env": {"VGUARD_LAYOUT": "strict"}})
+              "env": {"VGUARD_LAYOUT": "strict"}})   # strict layout: cvxopt's own loops only (zhemv_U_NEHALEM over-reads its x operand too)
     if not q:
         vg = ["valgrind", "--quiet", "--error-limit=no", "--num-callers=12", "--suppressions=" + os.path.join(os.path.dirname(os.path.dirname(os.path.abspath(__file__))), "vguard", "valgrind.supp")]
         g.append({"variant": "plain", "name": "valgrind-hostile", "workers": 2, "cases": 250, "params": {"mon": "hostile"}, "wrap": vg,
@@ -52,8 +52,14 @@ def plan(tier):
         if "C08" in _available():
             g.append({"variant": "plain", "name": "valgrind-replay-C08", "workers": 1, "cases": 200, "params": {"mon": "replay", "prop": "C08"}, "wrap": vg,
                       "env": {"PYTHONMALLOC": "malloc", "OPENBLAS_CORETYPE": "NEHALEM"}})
+    # OpenBLAS' AVX kernels (zdotc_k / zgemv_n for SANDYBRIDGE, HASWELL, COOPERLAKE ...) read up to one stride past the end of
+    # correctly sized operands (a third-party over-read, seen in zlauu2 <- lapack.potri on a 5x5 block with ldA=6).  The guard
+    # builds therefore pin the NEHALEM kernel set, which was calibrated silent even in the strict layout.
+    for g_ in g:
+        if g_["variant"] == "guard":
+            g_.setdefault("env", {})["OPENBLAS_CORETYPE"] = "NEHALEM"
     g.append({"variant": "asan", "name": "asan-large", "workers": 2, "cases": 3 if q else 60, "params": {"mon": "large"}})
-    g.append({"variant": "guard", "name": "guard-large", "workers": 1, "cases": 3 if q else 60, "params": {"mon": "large"}})
+    g.append({"variant": "guard", "name": "guard-large", "workers": 1, "cases": 3 if q else 60, "params": {"mon": "large"}, "env": {"OPENBLAS_CORETYPE": "NEHALEM"}})
     return g
 
 
@@ -122,7 +128,13 @@ def run(ctx):
         prop = ctx.params["prop"]
         mod = importlib.import_module("props." + prop.lower())
         orig_fail = harness.Case.fail
+        MEMKEYS = ("accepts-out-of-footprint", "modifies-outside-footprint", "outside-footprint", ":footprint", "invalid-short-accepted",
+                   "crash", "ccs-", "CCS")
         def quiet_fail(self, key, msg, **detail):
+            # functional verdicts belong to the functional checks; footprint / structural-damage verdicts are memory safety
+            if any(m_ in key for m_ in MEMKEYS):
+                ctx.count("replay.memory-verdicts")
+                return orig_fail(self, "replay-%s:%s" % (prop, key), msg, **detail)
             ctx.count("replay.functional-verdicts-ignored")
         harness.Case.fail = quiet_fail
         orig_run_case = ctx.run_case
@@ -342,7 +354,8 @@ def run(ctx):
             fn = rng.choice(["gesv", "getrf", "getrs", "potrf", "potrs", "posv", "sysv", "trtrs", "gels", "geqrf", "syev", "gesvd", "lacpy",
                              "getri", "potri", "trtri", "heev", "gesdd"])
             kw = {k_: ival(rng) for k_ in rng.sample(["n", "nrhs", "ldA", "ldB", "offsetA", "offsetB", "m"], rng.randint(0, 4))}
-            ip = matrix(0, (rng.randint(0, 5), 1), "i")
+            # pivot CONTENTS are data produced by getrf, not size arguments: keep them valid (identity pivots 1..k)
+            ip = matrix(list(range(1, rng.randint(0, 5) + 1)), tc="i")
             W = matrix(0.0, (rng.randint(0, 5), 1))
             DET.update({"A": A, "B": B, "kw": kw, "ipiv": len(ip), "W": len(W)})
             def f():
@@ -375,7 +388,7 @@ def run(ctx):
                     F(A, **kk)
             return "lapack." + fn, f
 
-        gens = [op_index, op_index, op_construct, op_base, op_base, op_misc] + ([op_blas, op_blas, op_lapack] if (blasspec and not noblas) else [op_lapack])
+        gens = [op_index, op_index, op_construct, op_base, op_base, op_misc] + ([op_blas, op_blas, op_lapack] if (blasspec and not noblas) else [])
         def one(c):
             rng = c.rng
             g = gens[rng.randrange(len(gens))]
